@@ -72,13 +72,14 @@ Print Assumptions C11_key_injective.
     collision-free SHA-256 and EVERY history of look-ups — any instances of the
     four mechanisms, prototypes and rule-level reconfigurations, any requests,
     any iteration orders — on which none of the guards of C11-F2 (assertions),
-    F3 (expressions), F4 (shifted writes), F6 (forwarded values), F7 (outputs in
-    endpoint templates) fires, every outcome with the cache is the outcome of a
+    F3 (expressions), F10 (session lifespan), F4 (equal pre-images of different writes),
+    F6 (forwarded values), F7 (outputs in endpoint templates) fires, every outcome with the cache is the outcome of a
     fresh evaluation under the instance's own policy; with the repair of F2 (F3)
     the guard of F2 (F3) is not needed *)
 Theorem C11_cache_transparent : forall fx H w h,
   (forall x y, H x = H y -> x = y) -> wf_history h ->
   (fx2 fx = true \/ g_F2 h = false) -> (fx3 fx = true \/ g_F3 h = false) ->
+  (fx10 fx = true \/ g_F10 h = false) ->
   g_F4 fx H h = false -> g_F6 h = false -> g_F7 h = false ->
   map sr_out (run_cached fx H w [] h) = map fst (run_fresh w h).
 Proof. exact cache_transparent. Qed.
@@ -98,6 +99,7 @@ Print Assumptions C11_cache_transparent_repaired.
 Theorem C11_nonvacuous :
   wf_history ok_history /\
   g_F1 ok_history (Some 0) = false /\ g_F2 ok_history = false /\ g_F3 ok_history = false /\
+  g_F10 ok_history = false /\
   (forall fx H, (forall x, String.length (H x) = 32) -> g_F4 fx H ok_history = false) /\
   g_F6 ok_history = false /\ g_F7 ok_history = false /\
   (exists a b, nth_error ok_history 0 = Some a /\ nth_error ok_history 2 = Some b /\ same_request a b = true /\
@@ -170,6 +172,12 @@ Theorem C11_F6_refuted :
     forall H, map sr_out (run_cached fx_none H w [] [a; b]) <> map fst (run_fresh w [a; b]).
 Proof. exact F6_refuted. Qed.
 Print Assumptions C11_F6_refuted.
+
+Theorem C11_F10_refuted :
+  exists w a b, g_F10 [a; b] = true /\ step_orders_valid a /\ step_orders_valid b /\
+    forall H, map sr_out (run_cached fx_now H w [] [a; b]) <> map fst (run_fresh w [a; b]).
+Proof. exact F10_refuted. Qed.
+Print Assumptions C11_F10_refuted.
 
 Theorem C11_F7_refuted :
   exists w a b, g_F7 [a; b] = true /\ step_orders_valid a /\ step_orders_valid b /\
